@@ -189,7 +189,8 @@ def run_c14(ck, fb, fbd):
     ck.floor("internal_find_property_instantiations", len(fs), 20)
     bad_empty = bad_match = 0
     for f in fs:
-        need_names(f, ["_name", "type_name", "prop"], None, "C14.find")
+        need_names(f, ["type_name", "prop"], None, "C14.find")
+        pname = f.d["params"][0]["n"]
         rets = [(b, i, x) for b, i, x in f.tops() if x.get("k") == "ret" and b in f.reach()]
         pos_ret = [(b, i, x) for b, i, x in rets if "prop_ptr_from_storage" in estr(x)]
         ok_empty = False
@@ -204,7 +205,7 @@ def run_c14(ck, fb, fbd):
             bad_empty += 1
         for b, i, x in pos_ret:
             at = {(estr(c), pol) for c, pol, e in f.facts(b)}
-            need = [lambda s: "shared()" in s, lambda s: "name()" in s and "_name" in s and "==" in s, lambda s: "internal_type_name()" in s and "type_name" in s and "==" in s]
+            need = [lambda s: "shared()" in s, lambda s: "name()" in s and pname in s and "==" in s, lambda s: "internal_type_name()" in s and "type_name" in s and "==" in s]
             if not all(any(pred(s) and pol is True for s, pol in at) for pred in need):
                 bad_match += 1
         if not pos_ret:
@@ -234,7 +235,8 @@ def run_c14(ck, fb, fbd):
     fs2 = insts("request_property")
     bad = 0
     for f in fs2:
-        need_names(f, ["prop", "_name"], None, "C14.create")
+        need_names(f, ["prop"], None, "C14.create")
+        pname = f.d["params"][0]["n"]
         creates = [(b, i, x) for b, i, x in f.nodes(("call",)) if x.get("pn", "").endswith("::internal_create_property")]
         for b, i, x in creates:
             facts = [(estr(c), pol) for c, pol, e in f.facts(b)]
@@ -247,7 +249,7 @@ def run_c14(ck, fb, fbd):
             if isinstance(sh, dict) and sh.get("k") == "var":
                 from .rule_g import single_assignment_init
                 init = single_assignment_init(f, sh["id"])
-                ok_sh = init is not None and estr(f.resolve(init)).replace(" ", "") == "!_name.empty()"
+                ok_sh = init is not None and estr(f.resolve(init)).replace(" ", "") == "!%s.empty()" % pname
             if not ok_sh:
                 bad += 1
         if not creates:
@@ -260,7 +262,8 @@ def run_c14(ck, fb, fbd):
             raise AnalysisBroken("no instantiation of ResourceManager::" + name)
         bad_guard = bad_n = bad_flag = 0
         for f in fs2:
-            need_names(f, ["_enable"] + (["existing"] if name == "set_shared" else []), None, "C14.transition")
+            need_names(f, (["existing"] if name == "set_shared" else []), None, "C14.transition")
+            pen = f.d["params"][1]["n"]
             throws = [(b, i, x) for b, i, x in f.nodes(("throw",)) if b in f.reach()]
             effects_pos = []
             for b, i, x in f.nodes(("call",)):
@@ -274,7 +277,7 @@ def run_c14(ck, fb, fbd):
                 ins = [(b, i) for b, i, nm in effects_pos if nm == "insert"]
                 for b, i in ins:
                     at = {(estr(c), pol) for c, pol, e in f.facts(b)}
-                    if not (("_enable", True) in at and any("shared()" in s and pol is True for s, pol in at)):
+                    if not ((pen, True) in at and any("shared()" in s and pol is True for s, pol in at)):
                         bad_guard += 1
                 if not ins or not throws:
                     bad_guard += 1
@@ -288,7 +291,7 @@ def run_c14(ck, fb, fbd):
                     bad_guard += 1
                 # disabling: set_persistent(_prop,false) on the !_enable path before the flag write
                 sp = [(b, i) for b, i, nm in effects_pos if nm == "set_persistent"]
-                if not any(("_enable", False) in {(estr(c), pol) for c, pol, e in f.facts(b)} for b, i in sp):
+                if not any((pen, False) in {(estr(c), pol) for c, pol, e in f.facts(b)} for b, i in sp):
                     bad_guard += 1
             # the storage flag is written last on every non-throwing path
             flagw = [(b, i) for b, i, nm in effects_pos if nm == name and (b, i)]
@@ -310,7 +313,7 @@ def run_c14(ck, fb, fbd):
                 for bb, ii, y in f.nodes(("call",)):
                     if y.get("pn", "") == PSB + "::set_persistent":
                         a = unwrap(f.resolve(y["a"][0]))
-                        if not (isinstance(a, dict) and a.get("k") == "var" and a.get("n") == "_enable"):
+                        if not (isinstance(a, dict) and a.get("k") == "var" and a.get("s") == "param" and a.get("t") == "bool"):
                             bad += 1
     (ck.ok if bad == 0 else lambda r_, w_, t: ck.violate(r_, w_, t, "C14.flagsync:set_persistent"))("C14.flagsync", fs2[0].where, "set_persistent: insert/erase on the persistent set is always followed by storage->set_persistent(_enable)")
     fs3 = insts("clear_props")
